@@ -16,18 +16,17 @@ _TYPED_CACHE: Dict[tuple, Dict[str, Set[str]]] = {}
 
 def paths(prog: Program, ctx: Optional[str], func: FuncInfo, inline: str = "light", second: bool = True,
           no_inline: Tuple[str, ...] = (), force_inline: Tuple[str, ...] = (), param_types: Optional[dict] = None,
-          max_states: int = 4000, light_for: Tuple[str, ...] = ()) -> List[State]:
+          max_states: int = 4000, opaque=None) -> List[State]:
     if inline == "light":
-        # the default policy: functions of the pinned tree (TODAY) are looked through only when they are a single return;
-        # any other helper (extracted, renamed or added by a later change) is inlined
-        inline, light_for = "deep", TODAY
-    key = (id(prog), ctx, func.qualname, inline, no_inline, force_inline, tuple(sorted((param_types or {}).items())), light_for)
+        # the default policy (see anchors.py): functions in the anchor table stay calls, everything else is looked through
+        inline, opaque = "deep", OPAQUE
+    key = (id(prog), ctx, func.qualname, inline, no_inline, force_inline, tuple(sorted((param_types or {}).items())), id(opaque) if opaque is not None else 0)
     ANALYSED[(ctx or "", func.qualname)] = max(ANALYSED.get((ctx or "", func.qualname), 0), len(_PATH_CACHE[key]) if key in _PATH_CACHE else 0)
     if key not in _PATH_CACHE:
         pt = {"second": "<ctx>"} if second else {}
         pt.update(param_types or {})
         w = Walker(prog, ctx, inline=inline, param_types=pt, no_inline=no_inline, force_inline=force_inline,
-                   max_states=max_states, light_for=light_for)
+                   max_states=max_states, opaque=opaque)
         _PATH_CACHE[key] = w.run(func)
         ANALYSED[(ctx or "", func.qualname)] = max(ANALYSED.get((ctx or "", func.qualname), 0), len(_PATH_CACHE[key]))
     return _PATH_CACHE[key]
@@ -215,26 +214,11 @@ def alloc_typecodes(prog: Program, cname: str, fld: str) -> Set[str]:
     return out
 
 
-# Every non-property function / method name of the pinned tree.  These are the anchors of the rules: a call to one of them keeps the
-# light policy (looked through only when it is a single return), while a helper that is NOT in this table - one that a later change
-# extracted, renamed or added - is always inlined, so that moving code into or out of helpers does not change what a rule sees.
-TODAY = tuple(sorted(set("""
-__bytes__ __contains__ __del__ __init__ __str__ __repr__ __update _cnt_number_bits_set _get_element _get_optimized_params _load _load_hex _load_init
-_parse_bloom_array _parse_footer _set_values _verify_bloom_similarity _verify_not_type_mismatch add add_alt check check_alt clear close
-current_false_positive_rate estimate_elements export export_c_header export_hex export_size frombytes hashes intersection jaccard_index union
-remove remove_alt __add_bloom_filter __check_for_growth __load __rotate_bloom_filter _parse_blooms pop push
-__enter__ __exit__ __getitem__ __setitem__ as_string check_bit clear_bit get_x_bits is_bit_set is_hex_string is_valid_file num_bits_set read
-resolve_path seek set_bit default_fnv_1a default_md5 default_sha256 fnv_1a fnv_1a_32 hash_with_depth_bytes hash_with_depth_int
-__set_params _add _contained_at_loc _element_is _get_start_index _is_cluster_start _is_empty_element _is_run_or_cluster_start _is_run_start
-_remove_element _shift_insert get_hashes merge print resize validate_metadata
-__insert_element _calc_error_rate _calc_fingerprint_size _check_if_present _deal_with_insertion _expand_logic _generate_fingerprint_info
-_indicies_from_fingerprint _insert_fingerprint _parse_bucket _parse_buckets _set_error_rate _setup_expand expand init_error_rate load_error_rate
-load_factor __bucket_decomposition _insert_fingerprint_alt decrement increment get_array
-join _parse_bytes __min_query __mean_query __mean_min_query
-""".split())))
-CM_ANCHORS = TODAY
+from .anchors import OPAQUE  # noqa: E402
+
+CM_ANCHORS = OPAQUE
 
 
-def apaths(prog: Program, ctx: Optional[str], func: FuncInfo, anchors: Tuple[str, ...] = TODAY, **kw) -> List[State]:
-    """paths with every helper that is not a named anchor inlined (helper extraction / renaming does not change what is seen)"""
-    return paths(prog, ctx, func, inline="deep", light_for=tuple(a for a in anchors if a != func.src_name or True), **kw)
+def apaths(prog: Program, ctx: Optional[str], func: FuncInfo, anchors=OPAQUE, **kw) -> List[State]:
+    """paths under the anchor policy (the default of paths()): every function outside the anchor table is looked through"""
+    return paths(prog, ctx, func, inline="deep", opaque=anchors, **kw)
